@@ -10,7 +10,7 @@ import (
 // makeReplay turns a refuted obligation into a replay file.  It returns the path
 // and whether the counterexample was reproduced against the real code.
 func makeReplay(e *Engine, verif, prop string, r *FuncResult, o *Obl) (string, bool) {
-	dir := filepath.Join(verif, "replay")
+	dir := replayDir(verif)
 	os.MkdirAll(dir, 0o755)
 	p := filepath.Join(dir, prop+"-"+sanitize(shortObl(o.Name))+".json")
 	rec := map[string]interface{}{
@@ -50,4 +50,12 @@ func replayFile(repo, verif, path string) error {
 	}
 	fmt.Printf("no executable replay; solver output:\n%v\n", rec["solver_output"])
 	return nil
+}
+
+// replayDir is where replay files go: /verif/replay, or GOVC_REPLAY_DIR (self-tests on scratch trees).
+func replayDir(verif string) string {
+	if d := os.Getenv("GOVC_REPLAY_DIR"); d != "" {
+		return d
+	}
+	return filepath.Join(verif, "replay")
 }
